@@ -16,7 +16,7 @@ ASSUMPTIONS = [
     "markings {0..2}^s for the firing rule",
 ]
 RULE = {
-    "quick": "every labelled network with <=3 unit-coefficient reactions over {A,B,C} (45 759) and every open system source+sink+2 two-sided reactions over {A,B} with coefficients <=2 (2 080); for each: all species subsets (siphons, traps, each max_size), "
+    "quick": "every labelled network with <=3 unit-coefficient reactions over {A,B,C} (45 759) and every open system source+sink+2 two-sided reactions over {A,B} with coefficients <=2 (2 080); for each: all species subsets (siphons, traps, each max_size; on the network object, its bipartite graph, that graph inserted in the opposite order, and the network with an extra registered species that occurs in no reaction; analyser asked twice), "
     "all markings {0,1,2}^s x transitions (enabled/fire), all flows {0,1,2}^r (realizability); non-trivial = has a siphon or trap, resp. flow realizable",
     "thorough": "the quick family with flows {0..3}^r, plus coefficients<=2 with <=2 reactions and 4 species x 2 reactions",
 }
